@@ -167,6 +167,7 @@ def run_registry(req):
         next(g)
     log = []
     model = {}
+    delegs = {}
     n_checks = 0
     executed_equal_pair = False
     for op in req["ops"]:
@@ -211,6 +212,38 @@ def run_registry(req):
                 gotc = unwrap_context_generator(st.frames[0], None)
                 if gotc != wantc:
                     obs.append({"kind": "wrong_unwrap_context_generator_hook", "which": which, "got": gotc, "want": wantc})
+                # end to end through the contextlib glue: a manager made from this very function gets the hook registered
+                # for its code (and no other); a manager that merely DELEGATES to it (`yield from`) gets the hook
+                # registered for the delegating function, never the one of the function it delegates to
+                from contextlib import contextmanager
+                from stackscope import Context, fill_context
+                direct = contextmanager(fns[which])()
+                direct.__enter__()
+                c1 = Context(obj=direct, is_async=False)
+                fill_context(c1)
+                if (c1.obj is not direct) if wantc is None else (c1.obj != wantc):
+                    obs.append({"kind": "glue_applied_wrong_unwrap_context_generator_hook", "which": which,
+                                "got": repr(c1.obj)[:60], "want": wantc})
+                if which not in delegs:
+                    dns = {"fn": fns[which]}
+                    # a code object of its own per delegating function (registrations are per code object)
+                    exec(compile("def deleg():\n    got = yield from fn()\n    return got\n",
+                                 "<c12-deleg-%s>" % which, "exec"), dns)
+                    deleg = dns["deleg"]
+                    unwrap_context_generator.register(deleg, lambda frame, ctx, which=which: "deleg-" + which)
+                    delegs[which] = deleg
+                dm = contextmanager(delegs[which])()
+                dm.__enter__()
+                c2 = Context(obj=dm, is_async=False)
+                fill_context(c2)
+                if c2.obj != "deleg-" + which:
+                    obs.append({"kind": "delegating_manager_got_another_codes_hook", "which": which,
+                                "got": repr(c2.obj)[:60], "want": "deleg-" + which})
+                for m in (direct, dm):
+                    try:
+                        m.gen.close()
+                    except BaseException:
+                        pass
     for g in gens.values():
         g.close()
     return {"obs": obs, "stats": {"checks": n_checks, "equal_pair_distinguished": executed_equal_pair}}
@@ -236,6 +269,18 @@ def run_customize(req):
         def elab(frame, nxt):
             calls.append("e")
             return None
+    elif ek == "returns_prune":
+        def elab(frame, nxt):
+            calls.append("e")
+            return PRUNE
+    elif ek == "returns_empty_list":
+        def elab(frame, nxt):
+            calls.append("e")
+            return []
+    elif ek == "returns_insert":
+        def elab(frame, nxt):
+            calls.append("e")
+            return [repl, nxt]
     else:
         def elab(frame, nxt):
             calls.append("e")
@@ -284,6 +329,13 @@ def run_customize(req):
     rest = [f.funcname for f in st.frames[1:]]
     if ek == "returns_repl":
         want_rest = ["_replacement_gen"]
+    elif ek in ("returns_prune", "returns_empty_list"):
+        want_rest = []         # the hook's own answer: registered "as an elaborate_frame hook", whatever `prune` says
+    elif ek == "returns_insert":
+        want_rest = None
+        if rest[:2] != ["_replacement_gen", "inner"]:
+            obs.append({"kind": "insertion_by_customize_elaborate", "rest": rest[:3]})
+        rest = rest[1:]
     elif prune:
         want_rest = []
     else:
